@@ -226,8 +226,8 @@ func (x *c10World) Apply(op bfs.Op) (fs []bfs.Finding) {
 					}
 				}
 			}
-			if faulted == "" && !keyHeld {
-				continue
+			if !keyHeld {
+				continue // keyless in ground truth: dropping it is C07's purge, with or without a fault on the way
 			}
 			if memAfter[b] == 0 && !target {
 				add("fault:discards-memory-cert:"+real.Name, fmt.Sprintf("%s(%s) under fault %q (err=%v) discarded the valid in-memory certificate %s", op.Name, op.Arg, faulted, r.err, nameOf([]byte(b))))
@@ -450,7 +450,7 @@ func checkC10(c *ev.Ctx) {
 	}
 	depth := 4
 	if c.Thorough() {
-		depth = 5
+		depth = 6
 	}
 	runBFS(c, func(root string) bfs.World { return newC10World(c, root) }, roots, depth, 0)
 }
